@@ -11,14 +11,15 @@ def wrapperOf : String → Option Wrapper
 def toolOf : String → Option Tool
   | "ok" => some .ok | "reorder" => some .reorder | "garbage_empty" => some .garbageEmpty
   | "garbage_ragged" => some .garbageRagged | "garbage_missing" => some .garbageMissing
-  | "garbage_length" => some .garbageLength | "garbage_swap" => some .garbageSwap | "bigout" => some .bigout
+  | "garbage_length" => some .garbageLength | "garbage_swap" => some .garbageSwap
+  | "dup_records" => some .dupRecords | "garbage_extra" => some .garbageExtra | "garbage_header" => some .garbageHeader | "bigout" => some .bigout
   | "garbage_tree" => some .garbageTree | "exit3" => some .exit3 | "hang" => some .hang
   | "sigkill" => some .sigkill | "hang_ignore_term" => some .hangIgnoreTerm
   | "missing" => some .missing | "isdir" => some .isdir | "nulbyte" => some .nulbyte | _ => none
 
 /-- `prot`, `nuc`, `generic` (custom alphabet of 3 symbols), `generic<K>` (of K symbols): (seqtype reported, alphabet size if custom). -/
 def seqkindOf (s : String) : Option (String × Option Nat) :=
-  if s = "prot" then some ("protein", none)
+  if s = "prot" ∨ s = "protempty" ∨ s = "protlong" ∨ s = "protmat" then some ("protein", none)   -- (one empty / very long / + matrix)
   else if s = "nuc" then some ("nucleotide", none)
   else if s = "generic" then some ("protein", some 3)
   else if s.startsWith "generic" then (s.drop 7).toNat?.map fun k => ("protein", some k)
@@ -53,6 +54,8 @@ def callOf : List String → Option Call
   | ["join", "-"] => some (.join .none)
   | ["join", "t"] => some (.join .pos)
   | ["join", "5"] => some (.join .pos)          -- a generous positive timeout (5 s)
+  | ["join", "-1"] => some (.join .zero)        -- a negative timeout has expired before it starts: like 0
+  | ["join", "inf"] => some (.join .inf)
   | ["chdir"] => some .chdir
   | ["callbad", m] => some (.methodBad m)
   | ["setgap", a] => a.toInt?.map fun a => .setGap a none
@@ -98,7 +101,7 @@ def step (st : DSt) (line : String) : DSt × String :=
       match constructErr w t n custom with
       | some e => (.failed, "ERR:" ++ e.toString ++ " | " ++ noObs)
       | none =>
-        let s := init w t n seqtype
+        let s := init w t n seqtype (k == "protmat")
         (.app s, "ok | " ++ showObs s)
     | _, _, _, _ => (st, "bad-op")
   | ["mapseq", k, codes] =>
